@@ -295,6 +295,28 @@ def check(case, stats=None):
                 want = [sum(dense[n][s + j] for n, s in wins) / len(wins) for j in range(w)]
                 if not close(got, want):
                     return [Failure("C11:window-mean", {"streamed": np.asarray(got).tolist(), "expected": want, "windows": wins})]
+                if case.get("wstrands"):
+                    # the values under stranded windows (strands '+', '-' and the undetermined '.'): streamed rows == in-memory rows, and for
+                    # '+' / '-' rows also the dense values (reversed on '-')
+                    from bionumpy.datatypes import StrandedInterval
+                    ws = case["wstrands"]
+                    strands = "".join(ws[i_ % len(ws)] for i_ in range(len(wins)))
+                    swt = StrandedInterval([x[0] for x in wins], np.array([x[1] for x in wins], dtype=int), np.array([x[1] + w for x in wins], dtype=int), strands)
+
+                    def rows_of(x):
+                        return [np.asarray(r.to_array() if hasattr(r, "to_array") else r).tolist() for r in x]
+                    sgw = genome.get_intervals(NpDataclassStream(iter([swt]), dataclass=StrandedInterval), stranded=True)
+                    got_rows = rows_of(bnp.compute(genome.get_intervals(stream()).get_pileup()[sgw]))      # (a stream is read once: a fresh one)
+                    mem_pile = genome.get_intervals(table).get_pileup()
+                    mem_rows = rows_of(mem_pile[genome.get_intervals(swt, stranded=True)])
+                    model_rows = [[dense[n][s + j] for j in range(w)][::-1 if z == "-" else 1] for (n, s), z in zip(wins, strands)]
+                    for i_, z in enumerate(strands):
+                        if z in "+-" and (mem_rows[i_] != model_rows[i_]):
+                            return [Failure("C11:stranded-window-rows:in-memory-differs-from-dense", {"row": i_, "strand": z, "in_memory": mem_rows[i_], "expected": model_rows[i_]})]
+                    if got_rows != mem_rows:
+                        bad = next((i_ for i_, (a_, b_) in enumerate(zip(got_rows, mem_rows)) if a_ != b_), None)
+                        return [Failure("C11:stranded-window-rows", {"row": bad, "strands": strands, "streamed": got_rows[bad] if bad is not None else got_rows,
+                                                                      "in_memory": mem_rows[bad] if bad is not None else mem_rows})]
     except Exception as e:  # noqa
         return [Failure(f"C11:raised:{comp}:{type(e).__name__}:{_where(e)}", {"error": repr(e)[:300] + " / " + repr(e.__cause__)[:200]})]
     return []
@@ -345,6 +367,8 @@ def make_case(genome, ents, cuts, comp, salt):
         case["m"] = 1 + salt % 4
     if comp == "window-mean":
         case["w"] = 1 + salt % 3
+        if salt % 2:
+            case["wstrands"] = ["+-", "+-.", ".", "-.", "+", ".+"][(salt // 2) % 6]
     if comp == "streamable-map":
         case["strand_salt"] = salt
     if comp == "joint":
